@@ -1138,7 +1138,18 @@ func (vm *VirtualMachine) cloneCallAsync(
 	if err != nil {
 		return nil, err
 	}
-	return object.NewThread(clone.initContext(ctx), fn, args), nil
+	// The clone evaluates in its own goroutine, so it needs its own watcher:
+	// without one, cancelling the context would stop the spawning VM but not
+	// the code it spawned. The watcher is released when the call finishes.
+	if err := clone.start(ctx); err != nil {
+		return nil, err
+	}
+	thread := object.NewThread(clone.initContext(ctx), fn, args)
+	go func() {
+		thread.Wait(context.Background())
+		clone.stop()
+	}()
+	return thread, nil
 }
 
 // Clones the VM and then calls the function synchronously in the clone.
@@ -1151,6 +1162,10 @@ func (vm *VirtualMachine) cloneCallSync(
 	if err != nil {
 		return nil, err
 	}
+	if err := clone.start(ctx); err != nil {
+		return nil, err
+	}
+	defer clone.stop()
 	return clone.callFunction(clone.initContext(ctx), fn, args)
 }
 
